@@ -27,6 +27,7 @@ def run(ctx):
     a_dispatcher(ctx)
     b_runtimes(ctx)
     c_v2_rails(ctx)
+    c_eval_errors_fail(ctx)
     d_flag(ctx)
     e_hide_prev_turn(ctx)
     e_marker_propagates(ctx)
@@ -264,6 +265,42 @@ def c_v2_rails(ctx):
                   "rail '%s' PASSES when its action fails: with `$%s = None` the path %s reaches the end of the flow, so the guarded text is approved unchecked" % (
                       f.name, a.target, " > ".join(x.text[:40] for x in bad.steps if x.kind in ("assign", "branch", "if"))), line=a.line)
     ctx.floor("C03.c.fail-closed", "nemoguardrails/library", "Colang 2 blocking rails that await an action", n_flows, 18)
+
+
+SM2 = "nemoguardrails/colang/v2_x/runtime/statemachine.py"
+EVAL2 = "nemoguardrails/colang/v2_x/runtime/eval.py"
+
+
+def c_eval_errors_fail(ctx):
+    """C03.c.fail-closed counts 'the rail's condition cannot be evaluated on the failed action's None result' as a closed outcome.  That holds only while
+    an evaluation error inside slide() leaves the statement un-executed and fails the flow: no handler inside slide() may swallow it and continue."""
+    t = ctx.tree.ast(SM2)
+    sl = find_function(t, "slide")
+    if sl is None:
+        raise AnalysisError("slide not found", anchor=SM2 + "::slide")
+    calls = [c for c in ast.walk(sl) if isinstance(c, ast.Call) and src(c.func) in ("eval_expression", "_evaluate_arguments")]
+    ctx.floor("C03.c.eval-error-fails", SM2, "expression evaluations in slide", len(calls), 4)
+    for c in calls:
+        swallowed = None
+        for tr, part in enclosing_trys(c, sl):
+            if part != "body":
+                continue
+            for h in tr.handlers:
+                aborts = any(isinstance(x, ast.Call) and src(x.func) in ("_abort_flow", "_flow_head_failed") for x in ast.walk(h)) or any(isinstance(x, ast.Raise) for x in ast.walk(h))
+                if not aborts:
+                    swallowed = h
+        ctx.check("C03.c.eval-error-fails", SM2, "slide", first_line(c, 70), swallowed is None,
+                  "an evaluation error here propagates out of slide() (the flow fails; a rail whose condition cannot be evaluated does not pass)" if swallowed is None else
+                  "the handler at line %d swallows the evaluation error and execution continues: a rail testing `$result.score > x` on a FAILED action (result None) skips its refusal block and approves the text"
+                  % swallowed.lineno, line=c.lineno)
+    ev = find_function(ctx.tree.ast(EVAL2), "eval_expression")
+    if ev is None:
+        raise AnalysisError("eval_expression (v2) not found", anchor=EVAL2 + "::eval_expression")
+    # the evaluator reports errors by raising: every handler in it raises
+    hs = [h for n in ast.walk(ev) if isinstance(n, ast.Try) for h in n.handlers]
+    ok = all(any(isinstance(x, ast.Raise) for x in ast.walk(h)) for h in hs)
+    ctx.check("C03.c.eval-error-fails", EVAL2, "eval_expression", "errors are raised", ok,
+              "every exception handler of the evaluator re-raises (as ColangValueError): no default value stands in for a failed evaluation (%d handlers)" % len(hs), line=ev.lineno)
 
 
 def d_flag(ctx):
